@@ -55,6 +55,13 @@ func (vc *VC) instr(ins ssa.Instruction) {
 	case *ssa.BinOp:
 		vc.binop(ins)
 	case *ssa.Store:
+		// pseudo-site "store:T.f": contracts may say what is written into a field ("site store:Task.Silent#1
+		// requires arg1 == origTask.Silent"; arg0 is the object, arg1 the value), evaluated in the state AT the store
+		if n := storeSiteName(ins); n != "" && vc.fc != nil && len(vc.fc.Sites) > 0 {
+			fa := ins.Addr.(*ssa.FieldAddr)
+			vc.siteClauses(n, vc.ordinalOf(ins, n), "site-requires", map[string]sval{
+				"arg0": {term: vc.val(fa.X), typ: fa.X.Type()}, "arg1": {term: vc.val(ins.Val), typ: ins.Val.Type()}}, ins.Pos())
+		}
 		vc.store(ins.Addr, vc.val(ins.Val), ins.Val.Type(), ins.Pos())
 	case *ssa.Call:
 		vc.call(ins)
@@ -458,7 +465,7 @@ func (vc *VC) store(ptr ssa.Value, v string, vt types.Type, pos token.Pos) {
 
 // frameCheck: a store must hit a fresh object or a component named in the function's modifies clause.
 func (vc *VC) frameCheck(ptr ssa.Value, pos token.Pos) {
-	if vc.fc == nil || vc.fc.Sweep || !vc.fc.HasMod {
+	if vc.fc == nil || vc.fc.Sweep || vc.fc.TrustedFrame || !vc.fc.HasMod {
 		return
 	}
 	if _, isFree := ptr.(*ssa.FreeVar); isFree {
@@ -1085,7 +1092,7 @@ func (vc *VC) mapUpdate(ins *ssa.MapUpdate) {
 }
 
 func (vc *VC) frameCheckMap(ins *ssa.MapUpdate) {
-	if vc.fc == nil || vc.fc.Sweep || !vc.fc.HasMod {
+	if vc.fc == nil || vc.fc.Sweep || vc.fc.TrustedFrame || !vc.fc.HasMod {
 		return
 	}
 	m := ins.Map.Type().Underlying().(*types.Map)
@@ -1226,4 +1233,17 @@ func (vc *VC) panicInstr(ins *ssa.Panic) {
 		return
 	}
 	vc.obligeSafety("panic", "false", ins.Pos())
+}
+
+// storeSiteName: "store:T.f" for a store to field f of a struct of the (package-local name of) type T.
+func storeSiteName(ins *ssa.Store) string {
+	fa, ok := ins.Addr.(*ssa.FieldAddr)
+	if !ok {
+		return ""
+	}
+	st := deref(fa.X.Type())
+	if _, ok := structOf(st); !ok {
+		return ""
+	}
+	return "store:" + shortTypeName(shortType(st)) + "." + recFieldName(st, fa.Field)
 }
